@@ -187,7 +187,7 @@ def _list(ex, args, kw, line):
         return []
     v = args[0]
     if isinstance(v, SIntList):
-        return v
+        return SIntList(*v.ts)              # a copy: the original may be appended to later
     return list(ex.iterate(v, line))
 
 
@@ -197,7 +197,7 @@ def _reversed(ex, args, kw, line):
     if isinstance(v, (list, tuple)):
         return list(reversed(v))
     if isinstance(v, SIntList):
-        return SIntList(sym.LREV(v.t))
+        return SIntList(*[sym.LREV(t) for t in v.ts])
     raise EngineLimit("reversed(%s)" % type(v).__name__)
 
 
@@ -205,6 +205,9 @@ def _reversed(ex, args, kw, line):
 def _zip(ex, args, kw, line):
     if all(isinstance(a, (list, tuple)) for a in args):
         return list(zip(*args))
+    if all(isinstance(a, (list, tuple, SIntList)) for a in args) and all(a.width == 1 for a in args if isinstance(a, SIntList)):
+        from .interp import ZipView
+        return ZipView(list(args))
     raise EngineLimit("zip of symbolic lists")
 
 
@@ -502,6 +505,13 @@ def _join(ex, obj, args, kw, line):
 def _append(ex, obj, args, kw, line):
     if isinstance(obj, list):
         obj.append(args[0])
+        return None
+    if isinstance(obj, SIntList):
+        v = args[0]
+        vs = (v,) if obj.width == 1 else v
+        if not (isinstance(vs, tuple) and len(vs) == obj.width and all(_isint(x) for x in vs)):
+            raise EngineLimit("append of %r to a symbolic list of width %d" % (v, obj.width))
+        obj.set_terms([sym.LAPP(t, T(x)) for t, x in zip(obj.ts, vs)])      # in place: Python lists are mutable objects
         return None
     raise EngineLimit("append on %s" % type(obj).__name__)
 
